@@ -185,6 +185,7 @@ def make_cfgs(rng, n, months_choices=(12, 13, 24)):
             else:
                 b.update({"follow_kind": "policy", "cont": not cfg["cont"],
                           "max_boreholes": rng.choice([v for v in (None, 5, 12, 40) if v != cfg.get("max_boreholes")])})
+        cfg.pop("late_reconfig", None)     # a manager that is used for a second project keeps the parameters project A was run with
         cfg["followed_by"] = {k: v for k, v in b.items()}
         extra.append(b)
     return cfgs + extra
